@@ -293,7 +293,7 @@ def r9_resolve_before_fail(run, F):
         if adt is None or adt["kind"] != "enum":
             scopes = [(b["npath"].split(" as ")[0].lstrip("<").split("::")[-1], None, b["hir"])]
         else:
-            mm = [m for m in hirq.matches(b["hir"]) if len(m["arms"]) >= 3]
+            mm = [m for m in hirq.matches(b["hir"]) if hirq.n_alts(m) >= 3]
             scopes = []
             for m in mm[:1]:
                 for a in m["arms"]:
